@@ -168,6 +168,7 @@ def p_float(itp, name, args, kw, node, st):
     if n is None:
         return mk(itp, 'float', v)
     r = n.copy()
+    r.fsf = n.fsf
     if cp:
         r.cplx = True
     return r
@@ -685,13 +686,21 @@ def p_arange(itp, name, args, kw, node, st):
     else:
         lo, hi = a[0], a[1]
     n = (hi - lo) if (lo is not None and hi is not None and len(args) <= 2) else None
+    step = 1
+    if len(args) == 3 and a[2] is not None and a[2].is_const() and int(a[2].c) in (1, -1) and lo is not None and hi is not None:
+        step = int(a[2].c)
+        n = (hi - lo) if step == 1 else (lo - hi)
     r = Num(zero_deg(), (n,), False, taint=taints(*args))
     r.q = Aff(0)
-    r.nonneg = lo is not None and bool(lo.nonneg())
+    r.nonneg = lo is not None and bool(lo.nonneg()) and step == 1
     if lo is not None and (len(args) <= 2):
         r.org = -lo          # index of the element whose value is 0 (value = lo + index)
         r.idx = True
         r.grid = (F(1), F(0), lo)
+    if lo is not None and n is not None and (len(args) <= 2 or step == -1 or len(args) == 3 and step == 1):
+        r.idxseg = [(n, lo, step)]
+        if step == -1:
+            r.grid = (F(-1), F(0), lo)
     return r
 
 
@@ -1047,6 +1056,8 @@ def p_concat(itp, name, args, kw, node, st):
                         break
             off = (off + ln) if ln is not None else None
         r.q = cur
+    if all(isinstance(p, Num) and p.idxseg is not None for p in parts):
+        r.idxseg = [piece for p in parts for piece in p.idxseg]
     segs = [p.seg if isinstance(p, Num) else None for p in parts]
     if all(sg is not None for sg in segs):
         from . import segmap
@@ -1083,7 +1094,10 @@ def p_where(itp, name, args, kw, node, st):
     m = N(args[0])
     if len(args) == 3:
         a, b = N(args[1]), N(args[2])
+        if a is None or b is None:
+            return mk(itp, 'where', *args)
         r = num_add(itp, a, b, node, 'concat')
+        r.taint = r.taint | taints(args[0])
         return r
     idx = Num(zero_deg(), (None,), False, taint=taints(args[0]))
     idx.role = 'mask'
@@ -1320,6 +1334,7 @@ def p_svd(itp, name, args, kw, node, st):
     S.role = 'singular'
     Vh = Num(zero_deg(), (n, n), True, taint=a.taint)
     Vh.mirror = True        # rows of Vh are the *conjugated* right singular vectors
+    Vh.role = 'svd-Vh'
     USED.add('svd(A): singular values real >= 0, non-increasing, homogeneous of the magnitude degree of A and '
              'invariant under a unitary diagonal acting on the rows; singular vectors are degree 0')
     itp.events.append(('svd', node, a, S, Vh))
@@ -1766,3 +1781,90 @@ def p_real_if_close(itp, name, args, kw, node, st):
         r.seg = list(args[0].seg)
         r.segax = args[0].segax
     return r
+
+
+@prim('functools.partial')
+def p_partial(itp, name, args, kw, node, st):
+    if not args:
+        return mk(itp, name)
+    return PartialV(args[0], args[1:], kw)
+
+
+PRIMS['operator.mul'] = _binop_prim(ast.Mult)
+PRIMS['operator.add'] = _binop_prim(ast.Add)
+PRIMS['operator.sub'] = _binop_prim(ast.Sub)
+PRIMS['operator.truediv'] = _binop_prim(ast.Div)
+
+
+@prim('builtins.map')
+def p_map(itp, name, args, kw, node, st):
+    """map(f, a, b, ...): f applied to corresponding elements; the result is a sequence as long as the shortest argument"""
+    if len(args) < 2:
+        return mk(itp, name, *args)
+    els, ns = [], []
+    for a in args[1:]:
+        el, n = itp.iter_elem(a, node, None)
+        els.append(el)
+        ns.append(n)
+    r = itp.call(args[0], els, {}, node, st)
+    n0 = ns[0]
+    if any(x is None or x != n0 for x in ns):
+        n0 = None
+    out = SeqV(r, n0, taint_of(r))
+    return out
+
+
+@prim('numpy.take')
+def p_take(itp, name, args, kw, node, st):
+    if len(args) < 2 or kw.get('axis') is not None or len(args) > 2:
+        return mk(itp, name, *args)
+    return itp.index_value(args[0], args[1], node)
+
+
+@prim('numpy.einsum')
+def p_einsum(itp, name, args, kw, node, st):
+    """single-operand reductions only ('ab->b', 'ab->a', 'a->'): a sum over the dropped axes"""
+    spec = args[0].v if args and isinstance(args[0], Const) and isinstance(args[0].v, str) else None
+    if spec is None or len(args) != 2 or '->' not in spec or ',' in spec:
+        return mk(itp, name, *args)
+    lhs, rhs = spec.replace(' ', '').split('->')
+    if len(set(lhs)) != len(lhs) or not set(rhs) <= set(lhs) or list(rhs) != [c for c in lhs if c in rhs]:
+        return mk(itp, name, *args)
+    r = args[1]
+    drop = [i for i, c in enumerate(lhs) if c not in rhs]
+    for ax in sorted(drop, reverse=True):
+        r = p_sum(itp, 'numpy.sum', [r], {'axis': Const(ax)}, node, st)
+    return r
+
+
+@prim('numpy.copyto')
+def p_copyto(itp, name, args, kw, node, st):
+    """copyto(dst, src): dst[...] = src"""
+    if len(args) >= 2 and isinstance(node, ast.Call) and node.args and isinstance(node.args[0], ast.Name) and isinstance(args[0], Num):
+        t = ast.Subscript(value=ast.Name(id=node.args[0].id, ctx=ast.Load()), slice=ast.Slice(lower=None, upper=None, step=None), ctx=ast.Store())
+        ast.copy_location(t, node)
+        ast.fix_missing_locations(t)
+        itp.store_subscript(t, args[1], st, node)
+        return Const(None)
+    return mk(itp, name, *args)
+
+
+@prim('numpy.put')
+def p_put(itp, name, args, kw, node, st):
+    """put(a, ind, v): a.flat[ind] = v -- positions given by an index array: a weak update of the target"""
+    if len(args) >= 3 and isinstance(node, ast.Call) and node.args and isinstance(node.args[0], ast.Name) and isinstance(args[0], Num) \
+            and node.args[0].id in st.env:
+        a, v = args[0], N(args[2])
+        if v is None:
+            return mk(itp, name, *args)
+        new = num_add(itp, a, v, node, 'store')
+        new = new.copy(shape=a.shape, cplx=a.cplx, taint=a.taint | v.taint | taints(args[1]))
+        new.ex = None
+        fn = itp.cur.qname if itp.cur else ''
+        itp.events.append(('store', node, a.shape, taint_of(v) | itp.pc, taints(args[1]), fn))
+        if a.view_of:
+            itp.events.append(('inplace', node, a.view_of, fn))
+        itp.written(node.args[0].id, a, new, st, node)
+        st.env[node.args[0].id] = new
+        return Const(None)
+    return mk(itp, name, *args)
